@@ -115,6 +115,8 @@ FUNCTION_BLOCK Gate\nVAR\n  sensor AT %IX3.0 : BOOL;\nEND_VAR\nVAR_OUTPUT\n  lam
     );
     // a configuration-level FB instance owning %I/%Q variables and the target of an access path
     s.push_str("VAR_GLOBAL\n  door : Gate;\nEND_VAR\n");
+    // globals that live at a direct address and whose next value depends on the previous one
+    s.push_str("VAR_GLOBAL\n  g_acc AT %QD20 : DINT;\nEND_VAR\nVAR_GLOBAL RETAIN\n  g_racc AT %QD24 : DINT;\nEND_VAR\n");
     s.push_str(&format!(
         "{}\n  trig : BOOL := {};\nEND_VAR\n",
         if trig_retain { "VAR_GLOBAL RETAIN" } else { "VAR_GLOBAL" },
@@ -123,15 +125,23 @@ FUNCTION_BLOCK Gate\nVAR\n  sensor AT %IX3.0 : BOOL;\nEND_VAR\nVAR_OUTPUT\n  lam
     for v in vars.iter().filter(|v| v.global) {
         s.push_str(&format!("{}\n  {} : {};\nEND_VAR\n", block(&v.qual, true), v.name, decl(&v.shape, v.init)));
     }
-    s.push_str("TASK Ev (SINGLE := trig, PRIORITY := 0);\nTASK Cy (INTERVAL := T#10ms, PRIORITY := 1);\n");
+    // no_tasks: the same programs without any TASK (all of them run as background programs)
+    let no_tasks = case["no_tasks"].as_bool().unwrap_or(false);
+    if !no_tasks {
+        s.push_str("TASK Ev (SINGLE := trig, PRIORITY := 0);\nTASK Cy (INTERVAL := T#10ms, PRIORITY := 1);\n");
+    }
     let inst = match case["inst_qual"].as_str().unwrap_or("none") {
         "retain" => "RETAIN ",
         "non_retain" => "NON_RETAIN ",
         _ => "",
     };
-    s.push_str(&format!("PROGRAM {inst}P1 WITH Cy : Main (fb WITH Ev);\nPROGRAM P2 WITH Ev : Other;\nPROGRAM P3 : Bg;\n"));
+    if no_tasks {
+        s.push_str(&format!("PROGRAM {inst}P1 : Main;\nPROGRAM P2 : Other;\nPROGRAM P3 : Bg;\n"));
+    } else {
+        s.push_str(&format!("PROGRAM {inst}P1 WITH Cy : Main (fb WITH Ev);\nPROGRAM P2 WITH Ev : Other;\nPROGRAM P3 : Bg;\n"));
+    }
     s.push_str("VAR_ACCESS\n  A1 : P1.acc_d : DINT READ_WRITE;\n  A2 : P1.acc_a[1] : INT READ_WRITE;\n  A3 : door.hits : INT READ_WRITE;\nEND_VAR\nEND_CONFIGURATION\n\n");
-    s.push_str("PROGRAM Main\nVAR_EXTERNAL\n");
+    s.push_str("PROGRAM Main\nVAR_EXTERNAL\n  g_acc : DINT;\n  g_racc : DINT;\n");
     for v in vars.iter().filter(|v| v.global) {
         let ty = decl(&v.shape, 0);
         let ty = ty.split(" :=").next().unwrap_or("DINT").to_string();
@@ -148,7 +158,7 @@ FUNCTION_BLOCK Gate\nVAR\n  sensor AT %IX3.0 : BOOL;\nEND_VAR\nVAR_OUTPUT\n  lam
         s.push_str(&update(&v.shape, &v.name));
         s.push('\n');
     }
-    s.push_str("door();\nseen := door.hits;\nt := 1000 / (in_w - 77);\n");
+    s.push_str("door();\nseen := door.hits;\ng_acc := (g_acc + in_w + 1) MOD 100000;\ng_racc := (g_racc + 3) MOD 100000;\nt := 1000 / (in_w - 77);\n");
     let dints: Vec<&VarSpec> = vars.iter().filter(|v| v.shape == "dint").collect();
     let mut sum = String::from("acc_d");
     for v in &dints {
@@ -162,7 +172,7 @@ FUNCTION_BLOCK Gate\nVAR\n  sensor AT %IX3.0 : BOOL;\nEND_VAR\nVAR_OUTPUT\n  lam
 }
 
 const IN_LEN: usize = 4;
-const OUT_LEN: usize = 20;
+const OUT_LEN: usize = 28;
 
 struct Side {
     rt: Runtime,
@@ -235,6 +245,7 @@ fn retained_names(case: &Json, vars: &[VarSpec]) -> Vec<(bool, String)> {
     if case["trig_retain"].as_bool().unwrap_or(false) {
         out.push((true, "trig".to_string()));
     }
+    out.push((true, "g_racc".to_string()));
     out
 }
 
@@ -261,6 +272,9 @@ fn classify_path(path: &str, vars: &[VarSpec], trig_retain: bool) -> String {
     let name = base.split(|c| c == '.' || c == '[').next().unwrap_or(base);
     if let Some(v) = vars.iter().find(|v| v.name == name && (v.global == !path.starts_with("P1."))) {
         return format!("var/{}/{}", if v.global { "global" } else { "program" }, v.qual);
+    }
+    if path == "g_acc" || path == "g_racc" {
+        return format!("var/global-at-direct-address/{}", if path == "g_racc" { "retain" } else { "none" });
     }
     if path == "trig" {
         return format!("var/global/{}", if trig_retain { "retain" } else { "none" });
@@ -403,6 +417,7 @@ impl Check for C09Check {
             "trig_init": cfg.chance(1, 2),
             "trig_retain": cfg.chance(1, 3),
             "file_store": rng.fork("store").chance(1, 3),
+            "no_tasks": rng.fork("tasks").chance(1, 6),
             "periodic_save_ms": if periodic_save { Json::from(*o.pick(&[0i64, 10, 30])) } else { Json::Null },
             "ops": ops,
         })
